@@ -69,7 +69,12 @@ def generate(rng):
         if k == "resigma":
             # the volatility is changed on the live stock (to zero or back to an ordinary level) and the market re-simulated with
             # the same shape: everything afterwards is judged under the current volatility
+            if rng.chance(0.7):
+                ops.append({"op": "bound", "target": rng.choice(["d0", "d1"]), "method": "price"})
             ops.append({"op": "resigma", "sigma": rng.choice([0.0, 0.0, 0.2, 0.4]), "torch_seed": rng.seed31()})
+            ops.append({"op": "bound", "target": rng.choice(["d0", "d1"]), "method": rng.choice(["price", "price", "delta"])})
+            if rng.chance(0.5):
+                ops.append({"op": "hedger", "model": rng.choice(["bs", "ww"]), "a": 1.0, "which": rng.choice(["hedge", "pl"])})
         elif k == "hedger":
             ops.append({"op": "hedger", "model": rng.choice(["bs", "ww"]), "a": rng.choice([0.5, 1.0, 2.0]), "which": rng.choice(["hedge", "pl"])})
         elif k == "bound":
